@@ -23,40 +23,73 @@ from snaxc.dialects import accfg
 State = dict[str, SSAValue]
 
 
-def infer_state_of(state_var: SSAValue) -> State:
+def infer_state_of(state_var: SSAValue, _assumed: dict[SSAValue, State] | None = None) -> State:
     """
     Entrance function of the inference pass.
 
     This walks up the def-use chain to compute all values
     that are guaranteed to be set in this state.
+
+    `_assumed` maps loop-carried block arguments to the state assumed for them while
+    the body of their loop is walked (used internally for loops).
     """
+    if _assumed is not None and state_var in _assumed:
+        return dict(_assumed[state_var])
     owner = state_var.owner
     match owner:
         case accfg.SetupOp(in_state=None) as setup_op:
             return {name: val for name, val in setup_op.iter_params()}
         case accfg.SetupOp(in_state=st) as setup_op if st is not None:
-            in_state = infer_state_of(st)
+            in_state = infer_state_of(st, _assumed)
             in_state.update(dict(setup_op.iter_params()))
             return in_state
         case scf.IfOp() as if_op:
-            return state_intersection(*infer_states_for_if(if_op, state_var))
+            return state_intersection(*infer_states_for_if(if_op, state_var, _assumed))
         case scf.ForOp() as for_op:
-            yield_op = for_op.body.block.last_op
-            assert isinstance(yield_op, scf.YieldOp)
             assert state_var in for_op.results  # this must be true because state_var.owner == for_op
-            return infer_state_of(yield_op.operands[for_op.results.index(state_var)])
+            idx = for_op.results.index(state_var)
+            # the loop may run zero times (initial state) or end with the state yielded by an
+            # iteration that started from the loop-head state
+            init_state = infer_state_of(for_op.iter_args[idx], _assumed)
+            head_state = _infer_loop_head_state(for_op, idx, _assumed)
+            return state_intersection(init_state, _infer_yielded_state(for_op, idx, head_state, _assumed))
         case Block() as block:
             match block.parent_op():
                 case scf.ForOp() as for_op:
                     assert isinstance(state_var, BlockArgument)  # must be a block argument for owner to be a block!
-                    return infer_state_of(for_op.iter_args[state_var.index - 1])
+                    return _infer_loop_head_state(for_op, state_var.index - 1, _assumed)
                 case _:
                     return {}
         case _:
             raise ValueError(f"Cannot infer state for op {owner.name}")
 
 
-def infer_states_for_if(op: scf.IfOp, state: SSAValue) -> tuple[State, State]:
+def _infer_yielded_state(
+    for_op: scf.ForOp, idx: int, head_state: State, assumed: dict[SSAValue, State] | None
+) -> State:
+    """
+    State yielded by one iteration of `for_op` for its `idx`-th loop-carried value, given
+    that the iteration starts in `head_state`.
+    """
+    yield_op = for_op.body.block.last_op
+    assert isinstance(yield_op, scf.YieldOp)
+    block_arg = for_op.body.block.args[idx + 1]
+    return infer_state_of(yield_op.operands[idx], {**(assumed or {}), block_arg: head_state})
+
+
+def _infer_loop_head_state(for_op: scf.ForOp, idx: int, assumed: dict[SSAValue, State] | None) -> State:
+    """
+    State that holds at the start of *every* iteration of `for_op` for its `idx`-th
+    loop-carried value: the fields of the initial state that an iteration starting
+    from the initial state yields unchanged.
+    """
+    init_state = infer_state_of(for_op.iter_args[idx], assumed)
+    return state_intersection(init_state, _infer_yielded_state(for_op, idx, init_state, assumed))
+
+
+def infer_states_for_if(
+    op: scf.IfOp, state: SSAValue, _assumed: dict[SSAValue, State] | None = None
+) -> tuple[State, State]:
     """
     Walk both sides of the if/else block and return the computed
     states for the given state SSA value (`state`)
@@ -71,7 +104,7 @@ def infer_states_for_if(op: scf.IfOp, state: SSAValue) -> tuple[State, State]:
         assert isinstance(yield_op, scf.YieldOp)
         # we know the yield op has the same number of operands as the
         # scf.if has results, so [idx] must be defined
-        states.append(infer_state_of(yield_op.operands[idx]))
+        states.append(infer_state_of(yield_op.operands[idx], _assumed))
     assert len(states) == 2
     return states[0], states[1]
 
